@@ -426,8 +426,14 @@ def m_set_difference(eng, bb, args, kw, st, sink, n):
 def m_dict_get(eng, bb, args, kw, st, sink, n):
     recv = bb.recv
     t = recv.ty
-    k = eng.coerce(args[0], t.key, n).z
-    present = z3.Select(t.dom(recv.z), k)
+    a0 = args[0]
+    if isinstance(a0.ty, T.Opt) and a0.ty.elem == t.key:
+        # key may be None: None is never a key of the modelled dicts (str / int keys)
+        k = a0.ty.get(a0.z)
+        present = z3.And(z3.Not(a0.ty.is_none(a0.z)), z3.Select(t.dom(recv.z), k))
+    else:
+        k = eng.coerce(a0, t.key, n).z
+        present = z3.Select(t.dom(recv.z), k)
     val = V(t.val, z3.Select(t.vals(recv.z), k))
     if len(args) > 1 or "default" in kw:
         d = args[1] if len(args) > 1 else kw["default"]
